@@ -338,9 +338,16 @@ def sweepAmounts (r : SweepReq) : List Nat :=
   | none => [sweepTotal r - sweepFeeOf r]
   | some l => sweepList (sweepTotal r) (sweepFeeOf r) [] l
 
+/-- more than one target asks for "the rest" (amount 0) -/
+def multiRest (r : SweepReq) : Bool :=
+  match r.outs with
+  | none => false
+  | some l => decide ((l.filter (· = 0)).length > 1)
+
 /-- (fee, amounts) of the sweep, `none` when it is refused -/
 def sweepPlan (r : SweepReq) : Option (Nat × List Nat) :=
-  if r.values.isEmpty then none
+  if multiRest r then none
+  else if r.values.isEmpty then none
   else if (sweepTotal r : Int) - (sweepFeeOf r : Int) ≤ (r.dust : Int) then none
   else if (sweepAmounts r).sum + sweepFeeOf r != sweepTotal r then none
   else some (sweepFeeOf r, sweepAmounts r)
